@@ -145,6 +145,10 @@ impl SubFix {
 
     /// sampling interval -1 = sample when the publishing interval elapses; returns the monitored item id
     pub fn create_item(&mut self, sub: u32, var: usize, client_handle: u32, queue_size: u32, discard_oldest: bool) -> Result<u32, StatusCode> {
+        self.create_item_with(sub, var, client_handle, queue_size, discard_oldest, -1.0)
+    }
+
+    pub fn create_item_with(&mut self, sub: u32, var: usize, client_handle: u32, queue_size: u32, discard_oldest: bool, sampling_interval: f64) -> Result<u32, StatusCode> {
         let h = self.conn.header(&self.token);
         let r = self.conn.call(CreateMonitoredItemsRequest {
             request_header: h,
@@ -153,7 +157,7 @@ impl SubFix {
             items_to_create: Some(vec![MonitoredItemCreateRequest {
                 item_to_monitor: ReadValueId { node_id: var_id(var), attribute_id: AttributeId::Value as u32, index_range: UAString::null(), data_encoding: QualifiedName::null() },
                 monitoring_mode: MonitoringMode::Reporting,
-                requested_parameters: MonitoringParameters { client_handle, sampling_interval: -1.0, filter: ExtensionObject::null(), queue_size, discard_oldest },
+                requested_parameters: MonitoringParameters { client_handle, sampling_interval, filter: ExtensionObject::null(), queue_size, discard_oldest },
             }]),
         });
         match r {
